@@ -94,3 +94,10 @@ Proof. exact RewriteFacts.C01_kernel_identity_wf. Qed.
 Print Assumptions C01_kernel_identity_wf.
 Example C01_kernel_identity_example : identity_f (ECmp true (EName 1%N) [(IsNot, EList [])]) = Some (ECmp true (EName 1%N) [(NotEq, EList [])]).
 Proof. reflexivity. Qed.
+
+(** use-set-literal inside an f-string replacement field (outside MiniPy): the replacement's text starts with `{`, which would
+    join the field's own brace; the current source keeps them apart (4169bc3), the pinned form did not. *)
+Theorem C01_kernel_set_literal_brace_first : forall a es,
+  exists rest, pp (rw_set_literal (ECall BSet [EList (a :: es)])) = 123%N :: rest.
+Proof. exact RewriteFacts.C01_kernel_set_literal_brace_first. Qed.
+Print Assumptions C01_kernel_set_literal_brace_first.
